@@ -1,7 +1,16 @@
 From Coq Require Import ExtrOcamlBasic List.
-From ChibiV Require Import Common.ExtractBase Gen.C10_Consts C10.Model.
+From ChibiV Require Import Common.ExtractBase Gen.C10_Consts C10.Model C10.Image.
 (* Coq's List.rev is the quadratic definition (rev l ++ [x]); a full segment is ONE run of 100 000 objects, which the
    sweep reverses: extracted to OCaml's linear List.rev (same function; trusted, see notes/C10.md (d)) *)
 Extract Inlined Constant rev => "List.rev".
+(* round 3: a filled segment is ONE run of up to a million objects, and the extracted length / app / map / fold_right /
+   Nat.add recurse once per element (stack overflow in the thorough growth streams).  Same functions, written with an
+   accumulator (trusted like List.rev above; the per-free-list-node recursions of the model itself stay as extracted). *)
+Extract Constant length => "fun l -> let rec go acc = function [] -> acc | _ :: t -> go (S acc) t in go O l".
+Extract Constant app => "fun l m -> List.rev_append (List.rev l) m".
+Extract Constant map => "fun f l -> List.rev (List.rev_map f l)".
+Extract Constant fold_right => "fun f a l -> List.fold_left (fun acc x -> f x acc) a (List.rev l)".
+Extract Constant Nat.add => "fun n m -> let rec go n m = match n with O -> m | S p -> go p (S m) in go n m".
 Extraction "model.ml" ext_base init try_alloc gc sweep alloc grow must_grow grow_size total_size heap_objs free_list
-  unit_sz hdr_sz min_obj.
+  unit_sz hdr_sz min_obj
+  packed_heap_make image_state rstep root_list closure.
